@@ -2,6 +2,7 @@ package sim
 
 import (
 	"fmt"
+	"strings"
 
 	"pgregory.net/rapid"
 
@@ -106,7 +107,13 @@ func genScenario(rt *rapid.T, p Profile) Scenario {
 		}
 		if p.FaultInSync && rapid.IntRange(0, 3).Draw(rt, "faultinsync") == 0 {
 			t := ids[rapid.IntRange(0, len(ids)-1).Draw(rt, "fistarget")]
-			kind := []string{"flapinsync", "restartinsync", "faults"}[rapid.IntRange(0, 2).Draw(rt, "fiskind")]
+			kind := []string{"flapinsync", "restartinsync", "faults", "flapinapply", "restartinapply"}[rapid.IntRange(0, 4).Draw(rt, "fiskind")]
+			if strings.HasSuffix(kind, "inapply") {
+				// fired when the device next carries out a change: the connection is lost / the device restarts
+				// while the answer is on its way
+				sc.Actions = append(sc.Actions, Action{Kind: kind, Target: t, Idle: true})
+			}
+			flapAfter := !strings.HasSuffix(kind, "inapply")
 			// armed now, fired by the next re-synchronisation: make one happen
 			if kind == "faults" {
 				// the device answers the re-synchronisation itself with errors for a while (any class: a
@@ -126,10 +133,18 @@ func genScenario(rt *rapid.T, p Profile) Scenario {
 					cs = append(cs, c)
 				}
 				sc.Actions = append(sc.Actions, Action{Kind: "faults", Target: t, Codes: cs, Idle: true})
-			} else {
+				if rapid.IntRange(0, 1).Draw(rt, "fisrestart") == 0 {
+					// the device comes back empty: what the re-synchronisation fails to push is missing
+					sc.Actions = append(sc.Actions, Action{Kind: "restart", Target: t})
+					online[t] = true
+					flapAfter = false
+				}
+			} else if flapAfter {
 				sc.Actions = append(sc.Actions, Action{Kind: kind, Target: t, Idle: true})
 			}
-			if online[t] {
+			if !flapAfter {
+				// nothing more to arrange
+			} else if online[t] {
 				sc.Actions = append(sc.Actions, Action{Kind: "linkdown", Target: t}, Action{Kind: "linkup", Target: t})
 			} else {
 				sc.Actions = append(sc.Actions, Action{Kind: "linkup", Target: t})
